@@ -84,7 +84,7 @@ func checkC17(c *core.Ctx) []core.Floor {
 	}
 	core.ParallelFor(n, c.Workers, func(i int) { runC17(c, drv, i) })
 	return []core.Floor{{Key: "scripts", Min: int64(n)}, {Key: "use_same", Min: 20}, {Key: "use_other", Min: 50}, {Key: "use_missing", Min: 20}, {Key: "use_othercase", Min: 5},
-		{Key: "restart_clean", Min: 10}, {Key: "restart_exit", Min: 10}, {Key: "restart_kill", Min: 5}, {Key: "restart_killhot", Min: 5}, {Key: "scripted_openings_updates_only_then_away_and_back", Min: 5}, {Key: "reuse_same_then_insert_then_pause", Min: 5}, {Key: "failed_use_then_dml", Min: 5},
+		{Key: "restart_clean", Min: 10}, {Key: "restart_exit", Min: 10}, {Key: "restart_kill", Min: 5}, {Key: "restart_killhot", Min: 5}, {Key: "scripted_openings_updates_only_then_away_and_back", Min: 5}, {Key: "scripted_openings_huge_statement_then_away_and_back", Min: 3}, {Key: "reuse_same_then_insert_then_pause", Min: 5}, {Key: "failed_use_then_dml", Min: 5},
 		{Key: "restart_boundary_databases_verified", Min: 100}, {Key: "dumps_after_use_compared", Min: 100}, {Key: "create_existing", Min: 10}, {Key: "scripted_openings_with_hundreds_of_databases", Min: 1}}
 }
 
@@ -111,6 +111,28 @@ func runC17(c *core.Ctx, drv string, idx int) {
 	lastWasUse, lastFailedUse := "", false
 	nontrivial := false
 	sinceUseSameInsert := false
+	if idx%16 == 7 {
+		// scripted opening: one statement that changes thousands of pages, and
+		// straight away (no pause: at most one timer tick has passed) another
+		// database is selected - the first one is closed with most of those
+		// pages still only in its cache - and then the first one again
+		a, b := c17Key(names[0]), c17Key(names[1])
+		for _, nm := range []string{a, b} {
+			steps = append(steps, c17Step{kind: "create_db", name: c17Spell(nm)})
+			dbs[nm] = &c17DB{m: model.NewDB(), grave: model.Graveyard{}, h: gen.NewHist(core.NewRand(r.U64()), true)}
+		}
+		steps = append(steps, c17Step{kind: "use", name: c17Spell(a), useCls: "other"})
+		d := dbs[a]
+		ct := d.h.CreateTable()
+		d.h.DB.Apply(ct)
+		steps = append(steps, c17Step{kind: "stmt", stmt: ct, text: model.RenderStmt(ct, model.Plain)})
+		big := d.h.Burst(d.h.DB.Tables[0], []int{24000, 30000, 20000}[idx/16%3])
+		steps = append(steps, c17Step{kind: "stmt", stmt: big, text: model.RenderStmt(big, model.Plain)})
+		steps = append(steps, c17Step{kind: "use", name: c17Spell(b), useCls: "other"}, c17Step{kind: "use", name: c17Spell(a), useCls: "other"})
+		cur = a
+		nsteps += len(steps)
+		c.Count("scripted_openings_huge_statement_then_away_and_back", 1)
+	}
 	if idx%8 == 3 {
 		// scripted opening: rows are inserted and reach the data file; then
 		// ONLY updates and deletes (no row id handed out, no page allocated,
